@@ -174,8 +174,8 @@ class CHECK(vlib.Check):
                 "indices/sizes below 2^32 (uint32 wrap-around of counts is not modelled)"]
     rule = ("operation scripts over Queue<int> (trivial) and Queue<Tracked> (owning) generated from random.Random(seed); "
             "after EVERY operation the result, user-visible items, _itemCount/_headIndex/_tailIndex/_queueSize, storage kind "
-            "and (owning) all raw slots incl. the unused in-object array are compared with the extracted L1 model (of both queues "
-            "in the two-queue streams); the harness's own ideal-vector oracle is evaluated as well.  Non-trivial = the script wraps "
+            "and all raw slots incl. the unused in-object array (for trivial items too: fresh memory is the ASan fill byte) are "
+            "compared with the extracted L1 model (of both queues in the two-queue streams); the harness's own ideal-vector oracle is evaluated as well.  Non-trivial = the script wraps "
             "the ring or reallocates (contains a head insertion or removal plus >= 4 additions, or an EnsureSize); two-queue "
             "scripts: contain an operation taking a Queue argument.")
 
